@@ -808,8 +808,88 @@ def _strip(spec):
     return {k: v for k, v in spec.items() if k not in ("m",)}
 
 
+
+# ------------------------------------------------------------------------------------------------------------------
+# object-valued (DyadCarrier) sensitivities travelling along several paths: summed, each exactly once
+# ------------------------------------------------------------------------------------------------------------------
+def dyad_path_cases(ctx, n):
+    """networks over MATRIX signals whose sensitivities are DyadCarriers (the sparse-matrix sensitivity type):
+    MatVec(A, x) -> y returns dA = dy x^T as a DyadCarrier, MatSum(A, B) -> C returns the SAME object for both
+    inputs. Every admissible module order and seed subset must give the dense total derivative."""
+    pm = _pm()
+    from pymoto import DyadCarrier
+    import itertools
+    rng = ctx.rng
+
+    class MatVec(pm.Module):
+        def _response(self, A, x):
+            return A @ x
+
+        def _sensitivity(self, dy):
+            A, x = [s.state for s in self.sig_in]
+            return DyadCarrier(dy, x), A.T @ dy
+
+    class MatSum(pm.Module):
+        def _response(self, A, B):
+            return A + B
+
+        def _sensitivity(self, dC):
+            return dC, dC
+
+    for t in range(n):
+        m, k = rng.randint(1, 3), rng.randint(1, 3)
+        A0 = np.array([[rng.randint(-3, 3) for _ in range(k)] for _ in range(m)], dtype=float)
+        B0 = np.array([[rng.randint(-3, 3) for _ in range(k)] for _ in range(m)], dtype=float)
+        xs = [np.array([rng.randint(-3, 3) for _ in range(k)], dtype=float) for _ in range(3)]
+        sA, sB = pm.Signal("A", A0.copy()), pm.Signal("B", B0.copy())
+        sx = [pm.Signal(f"x{i}", x.copy()) for i, x in enumerate(xs)]
+        sC = pm.Signal("C")
+        ya, yb, yc = pm.Signal("ya"), pm.Signal("yb"), pm.Signal("yc")
+        mods = {"a": MatVec([sA, sx[0]], [ya]), "b": MatVec([sB, sx[1]], [yb]), "s": MatSum([sA, sB], [sC]),
+                "c": MatVec([sC, sx[2]], [yc])}
+        use = ["s", "c"] + [q for q in ("a", "b") if rng.random() < 0.7]
+        orders = [o for o in itertools.permutations(use) if o.index("s") < o.index("c")]
+        order = orders[rng.randrange(len(orders))]
+        net = pm.Network([mods[q] for q in order])
+        seeds = {}
+        for q, sig in (("a", ya), ("b", yb), ("c", yc)):
+            if q in use and rng.random() < 0.8:
+                seeds[q] = np.array([rng.randint(-3, 3) for _ in range(m)], dtype=float)
+        if "c" not in seeds and rng.random() < 0.7:
+            seeds["c"] = np.array([rng.randint(-3, 3) for _ in range(m)], dtype=float)
+        r = call_impl(net.response)
+        if r[0] == "err":
+            ctx.oracle_fail(f"matrix network raised {r[2][:200]}", {"stream": "dyad-paths", "order": order})
+            continue
+        for q, sig in (("a", ya), ("b", yb), ("c", yc)):
+            if q in seeds:
+                sig.sensitivity = seeds[q].copy()
+        r = call_impl(net.sensitivity)
+        ctx.evaluations += 1
+        ctx.branch("dyad-paths." + "".join(order))
+        if r[0] == "err":
+            ctx.oracle_fail(f"matrix network sensitivity raised {r[2][:200]}", {"stream": "dyad-paths", "order": order})
+            continue
+        z = np.zeros((m, k))
+        dC = np.outer(seeds["c"], xs[2]) if "c" in seeds else z
+        wantA = dC + (np.outer(seeds["a"], xs[0]) if "a" in seeds else z)
+        wantB = dC + (np.outer(seeds["b"], xs[1]) if "b" in seeds else z)
+
+        def dense(v):
+            return z if v is None else (v.todense() if hasattr(v, "todense") else np.asarray(v))
+        gA, gB = dense(sA.sensitivity), dense(sB.sensitivity)
+        if not (np.array_equal(gA, wantA) and np.array_equal(gB, wantB)):
+            ctx.oracle_fail(f"DyadCarrier sensitivities along two paths are not summed once each: module order {order}, seeds on "
+                            f"{sorted(seeds)}: dA = {gA.tolist()} (expected {wantA.tolist()}), dB = {gB.tolist()} (expected {wantB.tolist()})",
+                            {"stream": "dyad-paths", "order": list(order), "seeds": {q: v.tolist() for q, v in seeds.items()},
+                             "A": A0.tolist(), "B": B0.tolist(), "x": [x.tolist() for x in xs]})
+        else:
+            ctx.distinct.add(("dyad-paths", order, tuple(sorted(seeds)), m, k))
+
+
 def correspondence(ctx):
     rng = ctx.rng
+    dyad_path_cases(ctx, 80 if ctx.quick else 1500)
     n_main = 450 if ctx.quick else 2500
     n_small = 200 if ctx.quick else 800
     n_bad = 150 if ctx.quick else 600
